@@ -391,6 +391,8 @@ class ContainerEngine:
                 op2["dt"] = 2.0
                 last_user[lk] = dict(u, _variant=op2["variant"])
                 op = op2
+            if rng.random() < 0.2:
+                op["user"]["_version"] = rng.choice(["1.7.8", "0.0.sim"])
             if sampled_faults and rng.random() < 0.3:
                 op["fault"] = {"seam": "h5write", "at": rng.randint(1, 47),
                                "exc": rng.choice(["ENOSPC", "EIO",
@@ -553,6 +555,10 @@ class ContainerEngine:
         PLAN.set_phase("save")
         n0 = PLAN.total["h5write"]
         out = {"ok": True}
+        ver0 = rio.nanite_version
+        if user.get("_version"):
+            # this save is done by another release of the library
+            rio.nanite_version = user["_version"]
         try:
             with warnings.catch_warnings():
                 warnings.simplefilter("ignore")
@@ -563,6 +569,7 @@ class ContainerEngine:
         except _caught() as e:
             out = {"ok": False, "exc": type(e).__name__, "msg": str(e)[:150]}
         finally:
+            rio.nanite_version = ver0
             out["writes"] = PLAN.total["h5write"] - n0
             if PLAN.fired:
                 out["fired"] = dict(PLAN.fired)
@@ -843,7 +850,11 @@ class ContainerEngine:
                 ref[key]["state"] = "stored"
                 ref[key].pop("user_new", None)
         # the training-set view of the container: one row of rating
-        # features per stored curve, those of the original
+        # features per stored curve, those of the original (not repeated
+        # for every enumerated fault position: it re-reads everything)
+        if feats.get("fault_at") or feats.get("retry"):
+            self.probes["container read back and compared"] += 1
+            return None
         try:
             with warnings.catch_warnings():
                 warnings.simplefilter("ignore")
